@@ -568,3 +568,21 @@ Qed.
 
 Lemma post_ids_unfold i p kids : post_ids (INode i p kids) = flat_map post_ids kids ++ [i].
 Proof. reflexivity. Qed.
+
+(* ---------------------------------------------------------------- post-order through visible children only *)
+Lemma flat_map_if_filter {A B} (P : A -> bool) (f : A -> list B) l :
+  flat_map (fun k => if P k then f k else []) l = flat_map f (filter P l).
+Proof. induction l as [|k r IH]; [reflexivity|]. cbn. destruct (P k); cbn; rewrite IH; reflexivity. Qed.
+Lemma post_vis_unfold t : NoDup (ids t) -> forall D n, In n (ids t) ->
+  a_post_vis t D n = flat_map (a_post_vis t D) (filter D (a_children t n)) ++ [n].
+Proof.
+  intros Hnd D n Hn. destruct (a_sub_of_id t Hnd n Hn) as [s [Hs [E Hsub]]]. unfold a_post_vis at 1, a_children. rewrite Hsub.
+  destruct s as [i p kids] eqn:Es. cbn [post_vis]. cbn [iid] in E. subst i. f_equal.
+  unfold kid_ids. cbn [ikids]. rewrite <- flat_map_if_filter, flat_map_map. apply flat_map_ext_in'. intros k Hk.
+  unfold a_post_vis. rewrite (a_sub_in t Hnd k); [reflexivity|]. apply (kid_in_subtrees t (INode n p kids) k Hs). exact Hk.
+Qed.
+Lemma post_vis_ftrue : forall s, post_vis ftrue s = post_ids s.
+Proof.
+  induction s as [i p kids IH] using itree_ind'. cbn [post_vis post_ids]. f_equal. apply flat_map_ext_in'.
+  intros k Hk. rewrite Forall_forall in IH. exact (IH k Hk).
+Qed.
